@@ -66,6 +66,18 @@ def pnorm_uf(d, vals):
     return _uf(f"PNORM_{d.numerator}_{d.denominator}_{len(vals)}", [_abs(v) for v in vals])
 
 
+def _pow(v, p, q):
+    """abs(v) ** (p/q) as documented for rsome.power (exact for integer exponents)."""
+    a = _abs(v)
+    fr = Fraction(p, q)
+    if fr.denominator == 1:
+        out = 1.0
+        for _ in range(fr.numerator):
+            out = out * a
+        return out
+    return _uf(f"POW_{fr.numerator}_{fr.denominator}", [a])
+
+
 def _exp(v):
     return p_exp(v)
 
@@ -116,9 +128,9 @@ def base(xtype, vin, params=None):
             vv = np.broadcast_to(np.asarray(vin, dtype=object), bp.shape)
             pp, qq = np.broadcast_to(p, bp.shape), np.broadcast_to(q, bp.shape)
             for idx in np.ndindex(bp.shape):
-                out[idx] = _uf(f"POW_{int(pp[idx])}_{int(qq[idx])}", [vv[idx]])
+                out[idx] = _pow(vv[idx], int(pp[idx]), int(qq[idx]))
             return out
-        return emap(lambda v: _uf(f"POW_{int(p)}_{int(q)}", [v]))
+        return emap(lambda v: _pow(v, int(p), int(q)))
     if xtype == "C":
         beta = list(params)
         return -_uf("GMEAN_" + "_".join(str(int(b)) for b in beta), vals)
